@@ -747,7 +747,8 @@ func (en Engine) converse(p0 *Plan, c *core.Ctx) (verdict *core.Verdict) {
 		skeleton += fmt.Sprintf("%s%v/%s/%d,", m.Kind, m.Args, m.Frag, m.StallMs)
 	}
 	c.Stats.Eval(skeleton, len(p.Msgs) > 1 || death)
-	c.Log.Add("machine=%s msgs=%d death=%d/%d -> err=%v stanzas=%d key=%d labels=%v wrote=%d bytes; model final=%s lenient=%v", p.Machine, len(p.Msgs), p.DeathAt, p.DeathCut, gotErr, len(gotStanzas), len(gotKey), gotLabels, tr.wrote.Len(), exp.final, exp.lenient)
+	// (the number of bytes the client wrote is not logged: its grease stanza comes from math/rand's auto-seeded source)
+	c.Log.Add("machine=%s msgs=%d death=%d/%d -> err=%v stanzas=%d key=%d labels=%v; model final=%s lenient=%v", p.Machine, len(p.Msgs), p.DeathAt, p.DeathCut, gotErr, len(gotStanzas), len(gotKey), gotLabels, exp.final, exp.lenient)
 
 	if !live {
 		return core.Fail("C16.liveness", "client made more than 10000 transport calls after the peer's last action (spinning instead of failing)")
